@@ -143,7 +143,7 @@ func regionBlocks(fn *ssa.Function, lo, hi token.Pos) (map[*ssa.BasicBlock]bool,
 }
 
 // verifyRegions checks every region contract of a function.
-func (e *Engine) verifyRegions(fn *ssa.Function, fc *contract.Func, rep *FuncReport) {
+func (e *Engine) verifyRegions(fn *ssa.Function, fc *contract.Func, rep *FuncReport) map[string]*regionInfo {
 	ctx := e.cur
 	fd, ok := fn.Syntax().(*ast.FuncDecl)
 	if !ok {
@@ -180,6 +180,7 @@ func (e *Engine) verifyRegions(fn *ssa.Function, fc *contract.Func, rep *FuncRep
 		e.verifyRegion(fn, fc, ri, children, rep)
 	}
 	_ = ctx
+	return infos
 }
 
 func regionProps(r *contract.Region) []string {
